@@ -8,6 +8,7 @@ import (
 	"io/fs"
 	"os"
 	"syscall"
+	"time"
 )
 
 // reference resolution of a (lexically simple) path against the working directory
@@ -241,4 +242,93 @@ func vh_C05_open_roundtrip() {
 	}
 	vAssert(n == 1, "exactly one os.OpenFile")
 	vAssert(vLoopRequests == 1, "one request")
+}
+
+// Client.Chmod / Chown / Chtimes / Truncate and File.Chmod / Chown / Truncate
+// -> wire -> real SETSTAT / FSETSTAT handler -> package os: exactly one
+// modifying call, the one package os offers under the same name, with the
+// caller's values (mode: nine permission bits and setuid/setgid/sticky; times
+// to the second).
+type vSetattr struct {
+	k        int
+	m        os.FileMode
+	uid, gid uint32
+	size     int64
+	at, mt   int64
+}
+
+func vSetattrChoice() (a vSetattr) {
+	a.k = vChoice(7)
+	switch a.k {
+	case 0, 4:
+		perm := vNondetU32()
+		vAssume(perm&^uint32(0o777) == 0)
+		a.m = os.FileMode(perm)
+		sp := vNondetU8()
+		if sp&1 != 0 {
+			a.m |= os.ModeSetuid
+		}
+		if sp&2 != 0 {
+			a.m |= os.ModeSetgid
+		}
+		if sp&4 != 0 {
+			a.m |= os.ModeSticky
+		}
+	case 1, 5:
+		a.uid, a.gid = vNondetU32(), vNondetU32()
+	case 2, 6:
+		a.size = vNondetI64()
+		vAssume(a.size >= 0)
+	case 3:
+		a.at, a.mt = int64(vNondetU32()), int64(vNondetU32())
+	}
+	return
+}
+
+//verif:samples 12
+func vh_C05_client_setattr() {
+	vErrKinds = 0
+	vEnvReset()
+	vLoopRequests = 0
+	svr := vNewServer(false, "")
+	svr.openFiles["1"] = &vMFile{name: "/o"}
+	vPeer = vServerPeer(svr)
+	c := vPeerClient()
+	defer vPeerDone(c)
+	f := &File{c: c, path: "/o", handle: "1"}
+	var err error
+	var want vCall
+	a := vSetattrChoice()
+	k := a.k
+	switch k {
+	case 0:
+		err = c.Chmod("/p", a.m)
+		want = vCall{Op: "Chmod", P1: "/p", Mode: uint32(a.m)}
+	case 4:
+		err = f.Chmod(a.m)
+		want = vCall{Op: "f.Chmod", P1: "/o", Mode: uint32(a.m)}
+	case 1:
+		err = c.Chown("/p", int(a.uid), int(a.gid))
+		want = vCall{Op: "Chown", P1: "/p", N1: int64(a.uid), N2: int64(a.gid)}
+	case 5:
+		err = f.Chown(int(a.uid), int(a.gid))
+		want = vCall{Op: "f.Chown", P1: "/o", N1: int64(a.uid), N2: int64(a.gid)}
+	case 2:
+		err = c.Truncate("/p", a.size)
+		want = vCall{Op: "Truncate", P1: "/p", N1: a.size}
+	case 6:
+		err = f.Truncate(a.size)
+		want = vCall{Op: "f.Truncate", P1: "/o", N1: a.size}
+	case 3:
+		err = c.Chtimes("/p", time.Unix(a.at, 5), time.Unix(a.mt, 7))
+		want = vCall{Op: "Chtimes", P1: "/p", N1: a.at, N2: a.mt}
+	}
+	vAssert(err == nil, "the call succeeds")
+	vAssert(vMutations == 1 && len(vEnvLog) == 1, "exactly one os call")
+	if len(vEnvLog) == 1 {
+		g := vEnvLog[0]
+		vAssert(g.Op == want.Op && g.P1 == want.P1, "the os call of the same name, on the path or open file")
+		vAssert(g.Mode == want.Mode && g.N1 == want.N1 && g.N2 == want.N2, "with the caller's values")
+	}
+	vEmit("k", k)
 }
